@@ -12,7 +12,7 @@ use std::time::Duration;
 
 const PROP: &str = "C20";
 pub const PORT: u16 = 6503;
-pub const N_STATES: usize = 17;
+pub const N_STATES: usize = 18;
 pub const N_VARIANTS: usize = 7;
 
 pub const STATE_NAMES: [&str; N_STATES] = [
@@ -33,6 +33,7 @@ pub const STATE_NAMES: [&str; N_STATES] = [
     "S14_debug_port_in_use_by_another_process",
     "S15_debugger_floods_without_reading",
     "S16_next_into_a_subroutine_that_never_returns",
+    "S17_launch_in_flight_while_the_server_analyses_an_edit",
 ];
 pub const VARIANT_NAMES: [&str; N_VARIANTS] = [
     "V1_shutdown_exit_close",
@@ -161,6 +162,12 @@ fn reach_state(state: usize, seed: u64, dap: &mut Option<DapClient>, notes: &mut
         if state == 6 {
             // attached, then the TCP connection is dropped
             c.close();
+            return Ok(());
+        }
+        if state == 17 {
+            // the launch is on its way (it needs the language server's context) while the editor sends an edit
+            // (the analysis holds that context); the caller sends the edit right after this returns
+            c.send_only("launch", json!({"workspace": WS, "testRunner": {"testCaseName": "t"}}))?;
             return Ok(());
         }
         c.request("launch", json!({"workspace": WS, "testRunner": {"testCaseName": "t"}}))?;
@@ -328,6 +335,10 @@ pub fn scenario(case: &Case, slot: &Arc<StdMutex<Option<Verdict>>>) {
         v.notes.push(format!("LSP setup failed: {:?}", e));
     }
     v.state_reached = setup.is_ok() && reach_state(state, case.seed, &mut dap, &mut v.notes);
+    if state == 17 {
+        let edited = format!("{}\n// edited\n", program_of(state));
+        let _ = lsp.did_change(&format!("{}/main.asm", WS), &edited);
+    }
     hist("harness", "state_reached", json!({"state": STATE_NAMES[state], "reached": v.state_reached}));
     clock::sleep(Duration::from_micros(case.delay_us));
     mos_simrt::probe::hit("c20_shutdown_begins");
